@@ -244,7 +244,8 @@ HARNESSES = {
     "unitscript": dict(opt="-O1"),
     "errloc": dict(opt="-O1"),
     "constprobe": dict(opt="-O1"),
-    "parsefuzz": dict(opt="-O1", sanitize=True, compiler="clang++-14"),
+    # constant folding runs C++ arithmetic at parse time; signed overflow and over-wide / negative shifts are undefined but do not trap, and C05 excludes them by name
+    "parsefuzz": dict(opt="-O1", sanitize=True, compiler="clang++-14", flags=["-fno-sanitize=signed-integer-overflow,shift"]),
     "lifetime": dict(opt="-O1", sanitize=True, compiler="clang++-14"),
     "engines": dict(opt="-O1"),
     "threads": dict(opt="-O1", tsan=True, compiler="clang++-14"),
@@ -558,7 +559,7 @@ def lean_obligations(ctx, prop_module_names, extra_targets=("chaimodel",)):
 
 # ---------------------------------------------------------------- extraction step
 EXTRACTORS = [("e_arith", "Arith.lean"), ("e_lit", "Lit.lean"), ("e_stl", "Stl.lean"), ("e_file", "File.lean"), ("e_json", "Json.lean"),
-              ("e_prelude", "Prelude.lean"), ("e_env", "Env.lean"), ("e_locks", "Locks.lean")]
+              ("e_prelude", "Prelude.lean"), ("e_env", "Env.lean"), ("e_locks", "Locks.lean"), ("e_parsegraph", "ParseGraph.lean")]
 
 
 def refresh_all_gen():
